@@ -146,6 +146,14 @@ def run(v) -> None:
             cls = rng.choice(["rand", "impulse", "const", "dyn"])
             cases.append({"kind": "conv", "x": seq(n, cls, 30), "y": seq(k, rng.choice(["rand", "impulse", "dyn"]), 30)})
     specs = [{"id": i, "cases": cases[i::14]} for i in range(14)]
+    # histories in ONE process: DEScending lengths that share a transform (good) size - what a longer call leaves in a reused
+    # workspace must not leak into a shorter one; and ascending again
+    for si, lens in enumerate([[40, 39, 38, 37, 36, 35, 36, 40], [25, 24, 23, 22, 21, 20, 19, 18], [16, 15, 14, 13, 12, 11, 10, 9, 16]] if quick else
+                              [[100, 99, 98, 97, 96, 95, 94, 100], [64, 63, 62, 61, 60, 59, 58, 57, 64], [40, 39, 38, 37, 36, 35, 36, 40],
+                               [25, 24, 23, 22, 21, 20, 19, 18], [16, 15, 14, 13, 12, 11, 10, 9, 16], [81, 80, 79, 78, 77, 76, 75]]):
+        for n in lens:
+            specs[si]["cases"].append({"kind": "spec", "x": seq(n, "rand", 50), "user_fft": False})
+            specs[si]["cases"].append({"kind": "conv", "x": seq(n, "rand", 30), "y": seq(max(1, n // 3), "rand", 30)})
     evs = [e for r in pool.pmap(job, specs, workers=14) for e in r]
     traces = [{"hdr": {}, "ev": [{k: e[k] for k in ("f", "x", "y", "q", "m", "nbins", "re", "im", "parsq", "outq", "nhdr", "outcome")}
                                  for e in evs[i:i + 20]], "full": evs[i:i + 20]} for i in range(0, len(evs), 20)]
